@@ -21,7 +21,8 @@ import (
 
 var binInstances = []acc.BinOpts{
 	{Name: "i1", AllowNoBid: "", BufferSize: "", StatsEvery: "1s", TidyEvery: "5m", LogFile: "stdout", LogLevel: "warn"},
-	{Name: "i2", AllowNoBid: "true", BufferSize: "1", StatsEvery: "2s", TidyEvery: "1s", LogFile: "FILE", LogLevel: "error", LogFormat: "text"},
+	{Name: "i2", AllowNoBid: "true", BufferSize: "1", StatsEvery: "2s", TidyEvery: "1s", LogFile: "FILE", LogLevel: "error", LogFormat: "text",
+		Secret: "bin-new-secret-i2,"}, // RELAY_SECRET="${NEW},${OLD}" with OLD unset
 	{Name: "i3", AllowNoBid: "false", BufferSize: "700", StatsEvery: "", TidyEvery: "", LogFile: "stdout", LogLevel: "info"},
 }
 
@@ -207,6 +208,18 @@ func genBinary(in *acc.Instance, try int) (Item, map[int]string, []binFinding, e
 	if e.Cfg.AE {
 		want[10], want[19] = "2xx", "joined"
 	}
+	// signed with something that is not the configured string: the empty key, each comma-separated part, a prefix
+	for _, k := range signingKeys(secret) {
+		if k.key == secret {
+			continue
+		}
+		fb := acc.SessionBearer(host, now.Unix(), a, "bkforged-"+name, []string{"read", "write"})
+		fb.Claims["exp"] = now.Unix() + 300
+		key := k.key
+		fb.SignKey, fb.KeyExact = &key, false
+		fb.Label = "signing-key:" + k.label
+		ops = append(ops, acc.Op{K: "req", Req: ses(a, fb)})
+	}
 	it := Item{Kind: "binary", Attempt: map[string]string{}, Note: map[string]string{"1": bkCli}}
 	for _, o := range ops {
 		if o.Ws != nil {
@@ -231,6 +244,7 @@ func execIndex(c acc.Case, orig int) int {
 }
 
 type binResult struct {
+	extra []Item // further cases run on the same instance (expiry binding)
 	item  Item
 	want  map[int]string
 	finds []binFinding
@@ -269,10 +283,20 @@ func runBinaryPart() ([]binResult, error) {
 				ok := runRelay(&it, in.Env, try)
 				out[i] = binResult{item: it, want: want, finds: finds, inst: in}
 				if ok {
-					return
+					break
+				}
+				if try == 2 {
+					out[i].item.Disc = true
 				}
 			}
-			out[i].item.Disc = true
+			// expiry binding on the binary too: a token valid for a long time already, and a fresh control
+			for try := 0; try < 3; try++ {
+				x := genExpiry(in.Env, "c01-binexp"+in.Opts.Name+"t"+strconv.Itoa(try), []int64{1, 900})
+				if runRelay(&x, in.Env, try) || try == 2 {
+					out[i].extra = append(out[i].extra, x)
+					break
+				}
+			}
 		}(i, o)
 	}
 	wg.Wait()
@@ -328,6 +352,14 @@ func oracleBinary(br binResult, idx int, res *lib.Result) {
 			q := c.Ops[j].Req
 			res.Violate(lib.Violation{Clause: "code-for-bad-token", Case: idx, Key: "code-for-bad-token:binary:" + q.Auth.Label, Replay: it,
 				Detail: fmt.Sprintf("`relay serve` started with [%s] answered %d to POST %s with token %s", vars, c.Outs[j].Status, q.Target, q.Auth.Label)})
+		}
+	}
+	for j, o := range c.Ops {
+		if o.K == "req" && o.Req.Route == "session" && j < len(c.Outs) && strings.HasPrefix(o.Req.Auth.Label, "signing-key:") &&
+			c.Outs[j].Status >= 200 && c.Outs[j].Status < 300 {
+			hv, _ := o.Req.Auth.Build(in.Env.Secret)
+			res.Violate(lib.Violation{Clause: "code-for-bad-token", Case: idx, Key: "code-for-bad-token:binary:" + o.Req.Auth.Label, Replay: it,
+				Detail: fmt.Sprintf("`relay serve` started with [%s] answered %d to a token that is not signed with the configured secret (%s): %s", vars, c.Outs[j].Status, o.Req.Auth.Label, hv)})
 		}
 	}
 	if in.Opts.LogFile != "" && in.Opts.LogFile != "stdout" {
